@@ -414,3 +414,52 @@ func StripBOM(data []byte) ([]byte, bool) {
 	}
 	return data, false
 }
+
+// SplitDocs splits a multi-document stream into its documents. Documents must
+// be separated by whitespace unless the previous one ended with a closing
+// bracket/brace/quote or the next one starts with an opening one (the cases the
+// generators produce). ok is false if the stream is not a sequence of valid
+// JSON texts; docs then holds the documents completed before the problem.
+func SplitDocs(data []byte) (docs [][]byte, ok bool) {
+	i := 0
+	for {
+		for i < len(data) && isWS(data[i]) {
+			i++
+		}
+		if i >= len(data) {
+			return docs, true
+		}
+		var m Machine
+		start := i
+		for {
+			if i >= len(data) {
+				if m.Complete() {
+					docs = append(docs, data[start:i])
+					return docs, true
+				}
+				return docs, false
+			}
+			b := data[i]
+			if m.Complete() && m.st != sAfter {
+				// top-level number: ends at whitespace
+				if isWS(b) {
+					docs = append(docs, data[start:i])
+					break
+				}
+			}
+			if !m.Feed(b) {
+				return docs, false
+			}
+			i++
+			if m.done && m.st == sAfter {
+				docs = append(docs, data[start:i])
+				// a literal glued to a following value ("null1") is one token in SEN:
+				// outside the generated domain, the stream is reported as not valid
+				if (b == 'l' || b == 'e') && i < len(data) && !isWS(data[i]) {
+					return docs, false
+				}
+				break
+			}
+		}
+	}
+}
